@@ -24,7 +24,7 @@ COMPONENTS = {"real": ["gasol_asm.execute_gasol and below (block_has_been_optimi
 ASSUMPTIONS = ["R4 transcribes the static fee schedule and solc byte sizes the README calls 'estimated'; every block starts cold; "
                "key identity is syntactic", "costs of dynamic parts (memory expansion, copy length) are out of scope by the property's own wording"]
 
-TEMPT = ["non_optimal", "non_optimal", "skewed", "any_model", "no_model", "unsat", "optimal", "nth_model"]
+TEMPT = ["non_optimal", "non_optimal", "skewed", "any_model", "no_model", "unsat", "optimal", "nth_model", "no_model_bounds"]
 
 
 def plan(tier, seed, batch):
